@@ -1,0 +1,86 @@
+// Copyright 2025 The Go Authors. All rights reserved.
+// Use of this source code is governed by a BSD-style
+// license that can be found in the LICENSE file.
+
+//go:build verif
+
+package quic
+
+// Contracts, spec functions and lemma harnesses for the deductive verifier in /verif (govc).
+// This file is compiled only with -tags verif; it adds no behaviour to the package.
+
+// ---------------------------------------------------------------------------
+// packet_number.go (property C23)
+
+// pnLenSpec is the unique length n in 1..4 with 2^(8(n-1)-1) <= d < 2^(8n-1)
+// (4 for every d >= 2^23).
+//
+//@ pure
+func pnLenSpec(d packetNumber) int {
+	switch {
+	case d < 1<<7:
+		return 1
+	case d < 1<<15:
+		return 2
+	case d < 1<<23:
+		return 3
+	}
+	return 4
+}
+
+// beBytes is the big-endian value of the n (1..4) bytes of b starting at off.
+//
+//@ pure
+func beBytes(b []byte, off int, n int) packetNumber {
+	switch n {
+	case 1:
+		return packetNumber(b[off])
+	case 2:
+		return packetNumber(b[off])<<8 | packetNumber(b[off+1])
+	case 3:
+		return packetNumber(b[off])<<16 | packetNumber(b[off+1])<<8 | packetNumber(b[off+2])
+	}
+	return packetNumber(b[off])<<24 | packetNumber(b[off+1])<<16 | packetNumber(b[off+2])<<8 | packetNumber(b[off+3])
+}
+
+//@ func packetNumberLength(pnum, largestAck) (n)
+//@   requires -1 <= largestAck && largestAck < pnum && pnum <= maxPacketNumber
+//@   ensures  n == pnLenSpec(pnum - largestAck)
+//@   ensures  1 <= n && n <= 4
+//@   ensures  pnum - largestAck < 1 << (8*uint(n) - 1)
+//@   ensures  n > 1 ==> pnum - largestAck >= 1 << (8*uint(n-1) - 1)
+//@
+//@ func appendPacketNumber(b, pnum, largestAck) (out)
+//@   requires -1 <= largestAck && largestAck < pnum && pnum <= maxPacketNumber
+//@   ensures  len(out) == len(b) + pnLenSpec(pnum - largestAck)
+//@   ensures  forall i int :: 0 <= i && i < len(b) ==> out[i] == old(b[i])
+//@   ensures  beBytes(out, len(b), pnLenSpec(pnum - largestAck)) == pnum & (1<<(8*uint(pnLenSpec(pnum - largestAck))) - 1)
+//@   modifies elems(b)
+
+// lemmaDecodePacketNumber is RFC 9000 A.3 for all inputs: a packet number inside the
+// window around largest+1 is recovered exactly from its low 8*nbytes bits.
+//
+//@ lemma
+//@ requires 0 <= pn && pn <= maxPacketNumber && -1 <= largest && largest <= maxPacketNumber
+//@ requires 1 <= nbytes && nbytes <= 4
+//@ requires pn > largest + 1 - (1 << (8*uint(nbytes) - 1)) && pn <= largest + 1 + (1 << (8*uint(nbytes) - 1))
+//@ ensures ok
+func lemmaDecodePacketNumber(largest, pn packetNumber, nbytes int) (ok bool) {
+	truncated := pn & (packetNumber(1)<<(uint(nbytes)*8) - 1)
+	return decodePacketNumber(largest, truncated, nbytes) == pn
+}
+
+// lemmaPacketNumberEndToEnd: sender (length choice and bytes written) and receiver together.
+//
+//@ lemma
+//@ requires -1 <= acked && acked <= recvLargest && recvLargest < pn && pn <= maxPacketNumber
+//@ ensures ok
+func lemmaPacketNumberEndToEnd(acked, recvLargest, pn packetNumber, pre []byte) (ok bool) {
+	b := appendPacketNumber(pre, pn, acked)
+	n := packetNumberLength(pn, acked)
+	if len(b) != len(pre)+n {
+		return false
+	}
+	truncated := beBytes(b, len(pre), n)
+	return decodePacketNumber(recvLargest, truncated, n) == pn
+}
